@@ -258,12 +258,11 @@ func normalize(opts *options, from interface{}) (*Config, Error) {
 	vFrom := chaseValue(reflect.ValueOf(from))
 
 	switch vFrom.Type() {
-	case tConfig:
-		return vFrom.Addr().Interface().(*Config), nil
 	case tConfigMap:
 		return normalizeMap(opts, vFrom)
 	default:
-		// try to convert vFrom into Config (rebranding)
+		// a Config, or a type that can be converted into Config (rebranding);
+		// tryTConfig works on an addressable copy if it is passed by value
 		if v, ok := tryTConfig(vFrom); ok {
 			return v.Addr().Interface().(*Config), nil
 		}
